@@ -20,6 +20,10 @@ package samlidp
 //@ contract (*MemoryStore).Put
 //@ contract (*MemoryStore).Delete
 //@ contract (*MemoryStore).List
+//@ -- what a key-value map would answer: each name listed is a key that starts with the prefix, with that one leading
+//@ -- prefix cut off and nothing else (the key "<prefix><name>" is what Get / Delete are then called with)
+//@ assert@call[C19,C20] append #each (dst []string, src []string) uses k string lists_keys_under_prefix:
+//@    strings.HasPrefix(k, prefix) && len(src) == 1 && prefix + src[0] == k
 //@ contract (*Server).GetServiceProvider
 //@ ensures[C19,C05,C06] found: err == nil ==> result != nil
 
@@ -107,6 +111,9 @@ package samlidp
 //@ -- the registry follows the store, never the other way round: entries change only after the store accepted the write,
 //@ -- so a failed write leaves the registry (and what a restarted server would rebuild from the store) unchanged
 //@ assert@store[C19] serviceProviders[] #1 (k string, v *saml.EntityDescriptor) registered_only_after_store_write: PutDone(s.Store)
+//@ -- which entity ID the name was registered under is read before the record is overwritten (read afterwards it is the
+//@ -- new one, and the old registration would stay in the registry)
+//@ assert@call[C06,C19] Put #1 (st Store, key string, v interface{}) uses prevRead=reached:previousErr bool previous_registration_read_first: prevRead
 //@ assert@call[C19] delete #1 (m map[string]*saml.EntityDescriptor, k string) unregistered_only_after_store_write: PutDone(s.Store)
 //@ contract (*Server).HandleDeleteService
 //@ assert@call[C19] delete #1 (m map[string]*saml.EntityDescriptor, k string) unregistered_only_after_store_delete: DeleteDone(s.Store)
